@@ -178,6 +178,8 @@ struct cparams { int level, flush, gzip_flag, hist_bits, huff, lbuf, api, cin, c
 enum { API_STATELESS, API_ONECALL, API_CHUNKED };
 enum { HUFF_DEFAULT, HUFF_STATIC, HUFF_CUSTOM };
 static struct isal_hufftables c_custom_ht;
+/* the last-buffer flag is documented as "non-zero": 1, 2 or 0x100 by input length */
+#define C_EOS(len) ((len) % 3 == 0 ? 1 : (len) % 3 == 1 ? 2 : 0x100)
 static uint32_t C_LB_BYTES; /* non-zero: level_buf_size to use instead of the named size (sizes between the named ones are legal too) */
 static int C_LB_OFF; /* 0: level_buf ends at a guard page; else its offset from the start of its mapping (multiples of 16) */
 
@@ -229,12 +231,12 @@ static int c_deflate(const struct cparams *p, uint8_t *in, size_t len, uint8_t *
 	if (p->api == API_STATELESS) {
 		s->next_in = in;
 		s->avail_in = len;
-		s->end_of_stream = 1;
+		s->end_of_stream = C_EOS(len);
 		r = isal_deflate_stateless(s);
 	} else if (p->api == API_ONECALL) {
 		s->next_in = in;
 		s->avail_in = len;
-		s->end_of_stream = 1;
+		s->end_of_stream = C_EOS(len);
 		r = isal_deflate(s);
 	} else {
 		size_t ip = 0, op = 0, cur_len = 0;
@@ -258,7 +260,7 @@ static int c_deflate(const struct cparams *p, uint8_t *in, size_t len, uint8_t *
 					ip += ci;
 				} /* else: nothing more to offer; next_in keeps pointing behind the consumed (now reused) chunk */
 			}
-			s->end_of_stream = ip >= len;
+			s->end_of_stream = ip >= len ? C_EOS(len) : 0;
 			s->next_out = out + op;
 			s->avail_out = co;
 			r = isal_deflate(s);
